@@ -112,7 +112,7 @@ SCENARIOS = {"heartbeat": make}
 USER_KINDS = ["udp-tunnel", "tcp-tunnel", "udp-device-management", "tcp-device-management"]
 
 
-def users_case(kind: str, script: tuple[str, ...]) -> list[tuple[str, str]]:
+def users_case(kind: str, script: tuple[str, ...], channel: int = 7) -> list[tuple[str, str]]:
     """The heartbeat as its users run it: a real tunnel / device management connection whose ConnectionStateRequests a simulated
     gateway answers from `script` ('ok', 'silent' or the name of an error status; 'ok' after the script).  What counts as a
     failed request is decided by the user's own callback, so every status code goes through it."""
@@ -131,7 +131,7 @@ def users_case(kind: str, script: tuple[str, ...]) -> list[tuple[str, str]]:
         gw = Gateway(loop)
         tcp = kind.startswith("tcp")
         dm = "device-management" in kind
-        pol = DefaultPolicy(gw, tcp=tcp, request_type=ConnectRequestType.DEVICE_MGMT_CONNECTION if dm else ConnectRequestType.TUNNEL_CONNECTION)
+        pol = DefaultPolicy(gw, tcp=tcp, first_channel=channel, request_type=ConnectRequestType.DEVICE_MGMT_CONNECTION if dm else ConnectRequestType.TUNNEL_CONNECTION)
         requests: list[float] = []
 
         def handler(body: Any) -> None:
@@ -169,7 +169,7 @@ def users_case(kind: str, script: tuple[str, ...]) -> list[tuple[str, str]]:
             loop.run_until(loop.time() + (len(script) + 2) * (HEARTBEAT_RATE + 15))
             # declared lost = the client gave the channel up: it forgot the channel id or told the server (DisconnectRequest)
             lost = conn.communication_channel is None or any(isinstance(b, DisconnectRequest) for _t, b in gw.log)
-            ctxs = f"{kind}: answers {list(script)} -> {len(requests)} ConnectionStateRequests at {[round(t, 2) for t in requests]}, connection {'lost' if lost else 'open'}"
+            ctxs = f"{kind} (channel id {channel}): answers {list(script)} -> {len(requests)} ConnectionStateRequests at {[round(t, 2) for t in requests]}, connection {'lost' if lost else 'open'}"
             if lost_at is None:
                 if lost:
                     viols.append(("user:connection-declared-lost-without-four-failures", ctxs))
@@ -211,12 +211,13 @@ def users_worker(k: int, n: int) -> Any:
     logging.disable(logging.CRITICAL)
     part = Part()
     i = 0
+    scripts = [(s_, 7) for s_ in user_scripts()] + [(s_, ch) for ch in (0, 255) for s_ in user_scripts() if len(s_) == 4]   # channel ids 0 and 255 are as valid as any
     for kind in USER_KINDS:
-        for script in user_scripts():
+        for script, channel in scripts:
             i += 1
             if i % n != k:
                 continue
-            viols = users_case(kind, script)
+            viols = users_case(kind, script, channel)
             part.evaluations += 1
             part.traces += 1
             part.transitions += len(script)
@@ -224,7 +225,7 @@ def users_worker(k: int, n: int) -> Any:
                 part.nontrivial += 1
             part.outcomes["users:" + ("violating" if viols else "ok")] += 1
             for sig, detail in viols:
-                part.viol(sig, detail, {"scenario": "users", "kind": kind, "script": list(script)}, rank=(len(script), script))
+                part.viol(sig, detail, {"scenario": "users", "kind": kind, "script": list(script), "channel": channel}, rank=(len(script), channel != 7, script))
     return part
 
 
@@ -235,7 +236,7 @@ def run(ctx: Ctx) -> None:
         f"(complete product, not deviation bounded) and every sequence of length {depth - 1} that also contains stop()/start() during a request; reference automaton "
         "(70 s period, immediate repeats, on_failure once after 4 consecutive failures or a raise, None/stop ends quietly) stepped in lock-step; "
         "plus the heartbeat as its users run it - real UDP/TCP tunnel and UDP/TCP device management connection against a simulated gateway answering the ConnectionStateRequests from a script: ALL scripts of "
-        "length <= 5 over {ok, silent, E_CONNECTION_ID} and 6 patterns for EVERY other status code (4 in a row, as 4th failure, reset by ok, ...): lost exactly after four consecutive failed requests, whatever the status. "
+        "length <= 5 over {ok, silent, E_CONNECTION_ID} and 6 patterns for EVERY other status code (4 in a row, as 4th failure, reset by ok, ...): lost exactly after four consecutive failed requests, whatever the status and whatever channel id (7, 0, 255) the server assigned. "
         "non-trivial = schedule with at least one non-ok outcome"
     )
     ctx.bounds = {"outcome_sequences_length": depth + 1, "with_start_stop_length": depth - 1}
@@ -248,5 +249,5 @@ def run(ctx: Ctx) -> None:
 
 def replay(case: Any) -> list[tuple[str, str]]:
     if case.get("scenario") == "users":
-        return users_case(case["kind"], tuple(case["script"]))
+        return users_case(case["kind"], tuple(case["script"]), case.get("channel", 7))
     return replay_schedule(__name__, case)
